@@ -849,6 +849,257 @@ def reader_paths(cl, enc, fscope, mend, entries, where):
     return const_fields
 
 
+
+# ---------------------------------------------------------------------------------------------------
+# Hand-written ENUM BYTE CODECS (the positional, non-TLV parts): `match x { Enum::A => 0u8.write(w)?, … }` on the write
+# side, `match <u8 as Readable>::read(r)? { 0 => Enum::A, … }` on the read side — whole `impl Writeable/Readable for Enum`
+# pairs (ChannelUpdateStatus, AnnouncementSigsState, HTLCSource, …) and the inline ones of FundedChannel::write/read
+# (InboundHTLCState, InboundHTLCRemovalReason, OutboundHTLCState, HTLCUpdateAwaitingACK, RAACommitmentOrder, …).
+# Extracted per `match`: writer (variant -> first `<N>u8.write(` / `<CONST>.write(` of the arm), reader (byte -> the
+# `Enum::Variant` of the arm's tail expression, `?` when the tail names none or several).  Writer and reader matches of the
+# same enum in the same file are paired in source order.
+# ---------------------------------------------------------------------------------------------------
+ENUM_VARIANT = re.compile(r'((?:[A-Za-z_]\w*\s*::\s*)*)([A-Z]\w*)\s*::\s*([A-Z]\w*)')
+CORE_ENUM_CODECS = ['ChannelUpdateStatus', 'AnnouncementSigsState', 'InboundHTLCState', 'InboundHTLCRemovalReason', 'OutboundHTLCState',
+                    'HTLCUpdateAwaitingACK', 'RAACommitmentOrder', 'HTLCSource', 'HTLCFailureMsg', 'MonitorEvent']
+
+
+def split_arms(body):
+    """[(pattern, arm body)] of the text between the braces of a `match`"""
+    arms, i, n, start, d = [], 0, len(body), 0, 0
+    while i < n:
+        c = body[i]
+        if c in '([{':
+            d += 1
+        elif c in ')]}':
+            d -= 1
+        elif c == '=' and d == 0 and body[i:i + 2] == '=>':
+            pat = body[start:i].strip()
+            j = i + 2
+            while j < n and body[j].isspace():
+                j += 1
+            if j < n and body[j] == '{':
+                e = match_close(body, j)
+                arm, k = body[j + 1:e], e + 1
+                while k < n and body[k].isspace():
+                    k += 1
+                if k < n and body[k] == ',':
+                    k += 1
+            else:
+                dd, k = 0, j
+                while k < n:
+                    ch = body[k]
+                    if ch in '([{':
+                        dd += 1
+                    elif ch in ')]}':
+                        dd -= 1
+                    elif ch == ',' and dd == 0:
+                        break
+                    k += 1
+                arm, k = body[j:k], k + 1
+            arms.append((pat, arm.strip()))
+            i = start = k
+            continue
+        i += 1
+    return arms
+
+
+def top_statements(arm):
+    out, d, cur = [], 0, ''
+    for ch in arm:
+        if ch in '([{':
+            d += 1
+        elif ch in ')]}':
+            d -= 1
+        if ch == ';' and d == 0:
+            out.append(cur.strip())
+            cur = ''
+        else:
+            cur += ch
+    if cur.strip():
+        out.append(cur.strip())
+    return out
+
+
+def extract_enum_codecs(files):
+    W, R = [], []
+    for path, rel in files:
+        cl = clean(open(path).read())
+        sc = scopes(cl)
+        for m in re.finditer(r'\bmatch\b([^{};]*)\{', cl):
+            o = m.end() - 1
+            try:
+                c = match_close(cl, o)
+            except TranslateError:
+                continue
+            enc = enclosing(sc, m.start())
+            headers = [h for _, _, h in enc]
+            if any(re.search(r'\bmod\s+(tests?|\w+_tests?|bench\w*|fuzzy\w*)\b', h) for h in headers) or any('#[test]' in h or 'cfg(test)' in h for h in headers):
+                continue
+            if any('macro_rules' in h for h in headers):
+                continue
+            fn = next((re.search(r'\bfn\s+(\w+)', h).group(1) for h in headers if re.search(r'\bfn\s+(\w+)', h)), None)
+            ty = next((impl_type(h) for h in headers if re.search(r'\bimpl\b', h) and impl_type(h)), None)
+            fscope = next(((fo, fc) for (fo, fc, h) in enc if re.search(r'\bfn\s+\w+', h)), None)
+            scrut = ' '.join(m.group(1).split())
+            arms = split_arms(cl[o + 1:c])
+            line = cl.count('\n', 0, m.start()) + 1
+            is_read = bool(re.search(r'<\s*u8\s+as\s+Readable\s*>\s*::\s*read\s*\(', scrut)) or bool(
+                re.fullmatch(r'\w+', scrut) and fscope and re.search(r'\blet\s+%s\s*:\s*u8\s*=\s*(?:Readable|<\s*u8\s+as\s+Readable\s*>)\s*::\s*read\s*\(' % scrut, cl[fscope[0]:m.start()]))
+            if is_read:
+                rows, ok = [], True
+                for pat, arm in arms:
+                    if pat == '_' or pat.startswith('_ '):
+                        continue
+                    bs = [x.strip() for x in pat.split('|')]
+                    if not all(re.fullmatch(r'\d+(?:u8)?', b) for b in bs):
+                        ok = False
+                        break
+                    st = top_statements(arm)
+                    tail = st[-1] if st else ''
+                    # drop leading block statements (`if … { … }`, `for … { … }`) in front of the tail expression
+                    d, cutp = 0, -1
+                    for k, ch in enumerate(tail):
+                        if ch in '([{':
+                            d += 1
+                        elif ch in ')]}':
+                            d -= 1
+                            if ch == '}' and d == 0:
+                                rest = tail[k + 1:].strip()
+                                if rest and not rest.startswith('else') and not rest[0] in ').,?':
+                                    cutp = k
+                    if cutp >= 0:
+                        tail = tail[cutp + 1:].strip()
+                    vs = set(((mv.group(2) if mv.group(2) != 'Self' else ty), mv.group(3)) for mv in ENUM_VARIANT.finditer(tail)
+                             if mv.group(2) not in ('DecodeError', 'Some', 'Ok', 'Err') and mv.group(3) not in ('new', 'default', 'from'))
+                    # the outermost variant: the first one of the tail
+                    first = ENUM_VARIANT.search(tail)
+                    v = None
+                    if first and not tail.startswith('return') and not re.match(r'^(if|match)\b', tail):
+                        en = first.group(2) if first.group(2) != 'Self' else ty
+                        if en not in ('DecodeError',):
+                            v = (en, first.group(3))
+                    for b in bs:
+                        rows.append((int(re.match(r'\d+', b).group(0)), v))
+                named = [r for r in rows if r[1]]
+                if ok and len(named) >= 2 and len(set(r[1][0] for r in named)) == 1:
+                    R.append({'enum': named[0][1][0], 'rows': [(r[0], r[1][1] if r[1] else '?') for r in rows], 'file': rel, 'line': line, 'where': '%s.%s' % (ty, fn)})
+            else:
+                rows, bad = [], 0
+                for pat, arm in arms:
+                    byte = None
+                    for stt in top_statements(arm):
+                        mb = re.match(r'^(\d+)u8\s*\.\s*write\s*\(', stt)
+                        mc = re.match(r'^([A-Z][A-Z0-9_]*)\s*\.\s*write\s*\(', stt)
+                        if mb:
+                            byte = int(mb.group(1))
+                            break
+                        if mc and fscope:
+                            cm = re.search(r'\bconst\s+%s\s*:\s*u8\s*=\s*(\d+)\s*;' % mc.group(1), cl[fscope[0]:fscope[1]])
+                            if cm:
+                                byte = int(cm.group(1))
+                                break
+                        if re.search(r'\.\s*write\s*\(', stt):
+                            break   # something else is written first
+                    vs = [((mv.group(2) if mv.group(2) != 'Self' else ty), mv.group(3)) for mv in ENUM_VARIANT.finditer(pat.split(' if ')[0])]
+                    vs = vs[:1] if '|' not in pat else [v for v in vs]
+                    if byte is not None and vs:
+                        # only the outermost variant(s) of the pattern: those not inside another variant's parentheses
+                        outer = []
+                        for alt in split_top(pat.split(' if ')[0], '|'):
+                            mv = ENUM_VARIANT.search(alt)
+                            if mv:
+                                outer.append(((mv.group(2) if mv.group(2) != 'Self' else ty), mv.group(3)))
+                        for v in outer:
+                            rows.append((v[0], v[1], byte))
+                    elif re.match(r'^(unreachable!|continue|debug_assert!|$)', arm):
+                        pass
+                    else:
+                        bad += 1
+                if len(rows) >= 2 and not bad and len(set(r[0] for r in rows)) == 1:
+                    W.append({'enum': rows[0][0], 'rows': [(r[1], r[2]) for r in rows], 'file': rel, 'line': line, 'where': '%s.%s' % (ty, fn)})
+    codecs, unpaired = [], []
+    keys = []
+    for w in W:
+        k = (w['file'], w['enum'])
+        if k not in keys:
+            keys.append(k)
+    used_r = set()
+    for k in keys:
+        ws = [w for w in W if (w['file'], w['enum']) == k]
+        rs = [r for r in R if (r['file'], r['enum']) == k]
+        for i, w in enumerate(ws):
+            if i < len(rs):
+                used_r.add(id(rs[i]))
+                name = w['enum'] + ('' if i == 0 else '#%d' % i)
+                codecs.append({'name': name, 'file': w['file'], 'wline': w['line'], 'rline': rs[i]['line'], 'where': w['where'], 'writes': w['rows'], 'reads': rs[i]['rows']})
+            else:
+                unpaired.append('writer %s (%s:%d)' % (w['enum'], w['file'], w['line']))
+    for r in R:
+        if id(r) not in used_r:
+            unpaired.append('reader %s (%s:%d)' % (r['enum'], r['file'], r['line']))
+    names = [c['name'] for c in codecs]
+    if len(set(names)) != len(names):
+        # the same enum name in two files
+        seen_n = {}
+        for c in codecs:
+            if names.count(c['name']) > 1:
+                c['name'] = '%s@%s' % (c['name'], os.path.basename(c['file'])[:-3])
+    for core in CORE_ENUM_CODECS:
+        if not any(c['name'] == core for c in codecs):
+            raise TranslateError('enum codec %s: the hand-written write / read `match` no longer has the expected shape (variant => <N>u8.write(..) / N => Enum::Variant)' % core)
+    return codecs, unpaired
+
+
+# the straight-line positional (non-TLV) part of the three big hand-written serializers: names of what is written
+# (`self.a.b.write(writer)`) and of the variables read (`let x = Readable::read(reader)?`), aligned; the common subsequence
+# is pinned in Props/C12 (a swap of two positional fields shortens it)
+POSITIONAL = [
+    ('FundedChannel', 'lightning/src/ln/channel.rs', r'Writeable for FundedChannel', 'write', r'for FundedChannel', 'read'),
+    ('ChannelManager', 'lightning/src/ln/channelmanager.rs', r'Writeable for ChannelManager', 'write', r'for ChannelManagerData', 'read'),
+    ('ChannelMonitor', 'lightning/src/chain/channelmonitor.rs', None, 'write_chanmon_internal', r'for Option<\(BlockLocator, ChannelMonitor', 'read'),
+]
+
+
+def extract_positional():
+    import difflib
+    out = []
+    for name, file, impl_w, fnw, impl_r, fnr in POSITIONAL:
+        cl = clean(open(os.path.join(REPO, file)).read())
+        sc = scopes(cl)
+
+        def body(impl_pat, fn_name):
+            for (o, c, h) in sc:
+                if re.search(r'\bfn\s+%s\b' % fn_name, h):
+                    enc = enclosing(sc, o)
+                    if impl_pat is None or any(re.search(impl_pat, hh) for _, _, hh in enc):
+                        return o, c
+            return None
+        w, r = body(impl_w, fnw), body(impl_r, fnr)
+        if not w or not r:
+            raise TranslateError('positional pairing %s: write / read fn not found' % name)
+        ws = []
+        for m in re.finditer(r'([^;{}]*?)\.\s*write\s*\(\s*writer\s*\)\s*\?', cl[w[0]:w[1]]):
+            e = ' '.join(m.group(1).split())
+            e = re.sub(r'^.*(=>|\belse\b|\bin\b)\s*', '', e)
+            e = strip_wrappers(e)
+            pp = parse_path(e)
+            if pp and not pp[1]:
+                segs = [n for n, c in pp[0] if c is False]
+                if segs and segs[-1] not in ('self',):
+                    ws.append(norm_local(segs[-1]))
+        rs = []
+        for m in re.finditer(r'\blet\s+(?:mut\s+)?(\w+)\s*(?::[^=;]*)?=\s*(?:<[^>]*>\s*::\s*read|Readable\s*::\s*read)\s*\(\s*reader\b', cl[r[0]:r[1]]):
+            rs.append(norm_local(m.group(1)))
+        sm = difflib.SequenceMatcher(None, ws, rs, autojunk=False)
+        common = []
+        for tag, i1, i2, j1, j2 in sm.get_opcodes():
+            if tag == 'equal':
+                common += ws[i1:i2]
+        out.append((name, common, len(ws), len(rs)))
+    return out
+
+
 def extract_file(path, rel, all_srcs):
     src = open(path).read()
     cl = clean(src)
@@ -1178,6 +1429,27 @@ def main(out_path):
     if not os.path.exists(fp) or open(fp).read() != ft:
         open(fp, 'w').write(ft)
 
+    # ---- enum byte codecs + positional common subsequence ---------------------------------------------------
+    codecs, codecs_unpaired = extract_enum_codecs(files)
+    positional = extract_positional()
+    EL = ['/- GENERATED by tools/gen_tlv_schemas.py from lightning/src/**/*.rs — do not edit.',
+          '   Hand-written enum byte codecs (variant -> byte on the write side, byte -> variant on the read side; `?` = the read arm',
+          '   names no single variant) and, for the three big positional serializers, the common subsequence of written field',
+          '   names and read variable names. -/',
+          'namespace Ldk.TlvFrame.Gen', '',
+          '/-- (codec, [(variant, byte written)], [(byte, variant read)]) -/',
+          'def enumCodecs : List (String × List (String × Nat) × List (Nat × String)) := [']
+    EL.append(',\n'.join('  (%s, [%s], [%s])' % (lean_str(c['name']), ', '.join('(%s, %d)' % (lean_str(v), b) for v, b in c['writes']),
+                                                 ', '.join('(%d, %s)' % (b, lean_str(v)) for b, v in c['reads'])) for c in codecs) + ']')
+    EL += ['', '/-- (object, common subsequence of positional written field names and read variable names) -/',
+           'def positionalCommon : List (String × List String) := [']
+    EL.append(',\n'.join('  (%s, [%s])' % (lean_str(n), ', '.join(lean_str(x) for x in common)) for n, common, _, _ in positional) + ']')
+    EL += ['', 'end Ldk.TlvFrame.Gen', '']
+    ep = os.path.join(os.path.dirname(os.path.abspath(out_path)), 'EnumCodecs.lean')
+    et = '\n'.join(EL)
+    if not os.path.exists(ep) or open(ep).read() != et:
+        open(ep, 'w').write(et)
+
     # version prefixes: write_ver_prefix!(w, VER, MIN) / read_ver_prefix!(r, THIS) with per-file u8 constants
     vers = []
     for p, rel in files:
@@ -1252,7 +1524,8 @@ def main(out_path):
         os.makedirs(os.path.dirname(os.path.abspath(out_path)), exist_ok=True)
         open(out_path, 'w').write(text)
     js = {'schemas': [{k: v for k, v in s.items()} for s in schemas], 'enums': enums, 'pairs': pairs, 'unpaired_writers': unpaired, 'unread_writers': unread, 'reader_arm_without_tlv': untlv,
-          'skipped': skipped, 'ver_prefixes': vers, 'field_rows': field_rows, 'reader_const_fields': reader_consts}
+          'skipped': skipped, 'ver_prefixes': vers, 'field_rows': field_rows, 'reader_const_fields': reader_consts, 'enum_codecs': codecs, 'enum_codecs_unpaired': codecs_unpaired,
+          'positional': [{'object': n, 'common': c, 'written': a, 'read': b} for n, c, a, b in positional]}
     jp = os.path.join(os.path.dirname(os.path.abspath(out_path)), 'tlv_schemas.json')
     jt = json.dumps(js, indent=1, sort_keys=True) + '\n'
     if not os.path.exists(jp) or open(jp).read() != jt:
